@@ -5,7 +5,7 @@
 set -u
 PROP="$1"; SRC="$2"; NAME="$3"; shift 3
 CHECKS="${*:-$PROP}"
-WT=/tmp/seed/$PROP   # the demos pin this path
+WT=${SEED_ROOT:-/tmp/seed}/$PROP   # the demos pin this path
 OUT=/verif/seeded/$PROP/$NAME
 mkdir -p "$OUT"
 if [ ! -d "$WT" ]; then git -C /repo worktree add -q "$WT" HEAD || exit 2; fi
